@@ -357,7 +357,17 @@ func (pu *purity) materialise(x aval, t types.Type) aval {
 		if !fits(k) { // a key that the asserted concrete type cannot carry belongs to another dynamic type
 			continue
 		}
+		// a function object is not a *string / []int and vice versa (both are leaves with the same path)
+		wantFn, exact := false, false
+		for _, lf := range lvs {
+			if k == lf.path && !lf.iface {
+				wantFn, exact = lf.fn, true
+			}
+		}
 		for l := range s {
+			if exact && !toIface && (l.n.kind == nFunc || l.n.code) != wantFn {
+				continue
+			}
 			out.add(k, l)
 		}
 	}
@@ -1353,13 +1363,100 @@ type purityResult struct {
 	undec   map[string][]*effect
 	iters   map[string]int
 	retGlob map[string]string // root -> package-level object its result may alias
+	outlive map[*ssa.Function]string // closures reachable from some root's result or stored into prestate / package-level state -> root
+	retIn   map[string]string // root -> client-writable part of the result that aliases memory that existed before
 	stats   struct{ activations, writes, freshWrites, writeSites int }
+}
+
+// r66Exempt: results that alias prestate by documented design, one named symbol each.
+var r66Exempt = map[string]string{
+	"(internal/ecolumn.View).ItemAt": "a nullable string is represented as *string and an enum cell is returned as a pointer to its dictionary entry (no copy per access, by design); writing through it is outside the API contract. No operation of the library alters a frame, which is what C01 states; recorded as an API hazard in DESIGN.md",
+	"function.StrS":                  "documented to return its argument (`StrS returns s`); the argument is the caller's pointer",
+	"function.ConcatS":               "returns one of its arguments when the other is nil (documented nil handling); the arguments are the caller's pointers",
+	"config/csv.NewToConfig":         "internal constructor (`should never be called from outside QFrame`): the configuration holds what the caller's options captured, e.g. the Columns order slice",
+	"config/groupby.NewConfig":       "internal constructor: the configuration holds the caller's column name slice captured by groupby.Columns",
+	"config/eval.NewConfig":          "internal constructor: the configuration holds the caller's *Context captured by eval.EvalContext; sharing the context is the purpose of the option",
+}
+
+// outlivingFuncs: function objects created by the operation that survive it: reachable from the root's
+// result, or from memory that existed before (stored into an argument or a package-level variable).
+func (pu *purity) outlivingFuncs(ret aval) map[*ssa.Function]bool {
+	out := map[*ssa.Function]bool{}
+	seen := map[*pnode]bool{}
+	var visit func(n *pnode)
+	visit = func(n *pnode) {
+		if seen[n] {
+			return
+		}
+		seen[n] = true
+		if n.kind == nFunc && n.fn != nil {
+			out[n.fn] = true
+		}
+		for k, s := range pu.heap[n] {
+			for l := range s {
+				if os.Getenv("QF_DEBUG_OUTLIVE") != "" && !seen[l.n] {
+					fmt.Fprintf(os.Stderr, "OUTLIVE %s --[%s]--> %s\n", n.key, k, l.n.key)
+				}
+				visit(l.n)
+			}
+		}
+	}
+	for k, s := range ret {
+		for l := range s {
+			if os.Getenv("QF_DEBUG_OUTLIVE") != "" {
+				fmt.Fprintf(os.Stderr, "OUTLIVE ret[%s] --> %s\n", k, l.n.key)
+			}
+			visit(l.n)
+		}
+	}
+	for n := range pu.heap {
+		if n.kind == nIn || n.kind == nGlob {
+			visit(n)
+		}
+	}
+	return out
+}
+
+// exposedPrestate: a slice, map or pointer the caller of root fn can write through (top level of a result,
+// or reached through exported fields only) that is memory which existed before the call.
+func (pu *purity) exposedPrestate(fn *ssa.Function, ret aval) string {
+	res := fn.Signature.Results()
+	var t types.Type = res
+	if res.Len() == 1 {
+		t = res.At(0).Type()
+	}
+	for _, lf := range pu.flatten(t) {
+		if lf.iface || lf.fn || !clientVisiblePath(lf.path) {
+			continue
+		}
+		for l := range ret[lf.path] {
+			if l.n.kind == nIn {
+				return fmt.Sprintf("result%s aliases %s%s", lf.path, l.n.key, l.rel)
+			}
+		}
+	}
+	return ""
+}
+
+func clientVisiblePath(path string) bool {
+	for _, seg := range strings.Split(path, ".") {
+		if i := strings.IndexAny(seg, "#$"); i >= 0 {
+			seg = seg[:i]
+		}
+		if seg == "" {
+			continue
+		}
+		if r := seg[0]; r < 'A' || r > 'Z' {
+			return false
+		}
+	}
+	return true
 }
 
 // purityResult analyses the public roots whose name passes filter (nil = all); results are cached per root.
 func (p *Prog) purityResult(filter func(string) bool) *purityResult {
 	if p.pur == nil {
-		p.pur = &purityResult{effects: map[string][]*effect{}, globals: map[string][]*effect{}, undec: map[string][]*effect{}, iters: map[string]int{}, retGlob: map[string]string{}}
+		p.pur = &purityResult{effects: map[string][]*effect{}, globals: map[string][]*effect{}, undec: map[string][]*effect{}, iters: map[string]int{}, retGlob: map[string]string{}, retIn: map[string]string{}, outlive: map[*ssa.Function]string{}}
 		p.pur.roots = publicRoots(p)
 	}
 	r := p.pur
@@ -1376,6 +1473,14 @@ func (p *Prog) purityResult(filter func(string) bool) *purityResult {
 		r.iters[fname(fn)] = pu.runRoot(fn)
 		if g := pu.reachesGlobal(pu.lastRet); g != "" {
 			r.retGlob[fname(fn)] = g
+		}
+		if w := pu.exposedPrestate(fn, pu.lastRet); w != "" {
+			r.retIn[fname(fn)] = w
+		}
+		for f := range pu.outlivingFuncs(pu.lastRet) {
+			if _, ok := r.outlive[f]; !ok {
+				r.outlive[f] = fname(fn)
+			}
 		}
 		if os.Getenv("QF_DEBUG") != "" {
 			fmt.Fprintf(os.Stderr, "root %-50s iters=%d activations=%d nodes=%d %.2fs\n", fname(fn), r.iters[fname(fn)], pu.stats.activations-a0, len(pu.nodes), time.Since(t0).Seconds())
@@ -1543,6 +1648,30 @@ func init() {
 }
 
 func init() {
+	register(&Rule{ID: "R66", Name: "NO-STORAGE-ESCAPE", Floor: 80,
+		Text: "no public root hands its caller a writable reference into memory that existed before the call: every slice, map or pointer that is a result itself or is reached from a result through exported fields only (what client code can write through without the library) is allocated by the operation; frames, groupers and views are opaque (unexported fields) and may share storage. From the same interpretation as R1; one obligation per public root",
+		Run: func(c *Ctx) {
+			p := c.P
+			r := p.purityResult(nil)
+			for _, fn := range r.roots {
+				name := fname(fn)
+				if why, ex := r66Exempt[name]; ex {
+					if _, ok := r.retIn[name]; ok {
+						c.okTrivial(name+"|result", p.pos(fn.Pos()), "frozen exception: "+why)
+					} else {
+						c.okTrivial(name+"|result", p.pos(fn.Pos()), "no client-writable part of the result is prestate (the frozen exception is no longer needed)")
+					}
+					continue
+				}
+				if w, ok := r.retIn[name]; ok {
+					c.bad(name+"|result", p.pos(fn.Pos()), w+": the caller can modify frame storage (or an argument) through the returned value")
+				} else if es := r.undec[name]; len(es) > 0 {
+					c.undecided(name+"|result", p.pos(fn.Pos()), fmtEffects(es))
+				} else {
+					c.okTrivial(name+"|result", p.pos(fn.Pos()), "no client-writable part of the result is prestate")
+				}
+			}
+		}})
 	register(&Rule{ID: "R47", Name: "FRESH-RESULT", Floor: 3,
 		Text: "the value returned by the evaluation-context and configuration constructors (eval.NewDefaultCtx, eval.NewConfig and the other config constructors) does not alias mutable package-level state: a context handed to a caller who then calls SetFunc on it must not share maps with the built-in table of other contexts",
 		Run: func(c *Ctx) {
